@@ -26,7 +26,7 @@ from .C20 import deep_unwrap
 LEVEL = 'other'
 UNITS = ['src/monitoring/RateMonitoring.cpp', 'src/diagnostics/CheckupRate.cpp']
 ENGINES = 'E-STATE + E-ORD + E-ALG over romea-facts'
-TECHNIQUE = 'type of the running sum of periods, heartbeats stamped before the last datum with unsigned conversion modelled, timeout() stepped in IEEE arithmetic at the 0.5 s boundary for absolute times to 5000 s, dropped stamps on witness periods, state left by the timeout path (second heartbeat), members read by the timeout predicate take their constructor value over expected rates of the quantifier, numeric check-up arguments on (rate, tolerance) witnesses, bounded history from the constructed monitor (update read W+6 times with symbolic periods on a concrete store), bit width of every integer that carries a period, sweep of every function read (and its in-repo callees) for frozen function-local statics, single precision inside double computations, lossy copy constructors, presence- or argument-keyed member caches, reference members bound to constructor arguments, loop accumulators that are members, members derived in the constructor and not refreshed by setters, results returned by reference to a member buffer, members filled from an argument under a condition that ignores it, hidden non-virtual base members, self-bound reference members, reductions that accumulate in float; every path of update() establishes the has-data state the timeout predicate reads; symbolic per-path reading of the update/timeout recurrences (exact formulas), paired queue/sum rule, boundary-witness evaluation of the extracted timeout predicate, dataflow wiring of the rate into the check-up'
+TECHNIQUE = 'members refreshed on demand under a flag: every method that changes the source must arm it (sweep H15), type of the running sum of periods, heartbeats stamped before the last datum with unsigned conversion modelled, timeout() stepped in IEEE arithmetic at the 0.5 s boundary for absolute times to 5000 s, dropped stamps on witness periods, state left by the timeout path (second heartbeat), members read by the timeout predicate take their constructor value over expected rates of the quantifier, numeric check-up arguments on (rate, tolerance) witnesses, bounded history from the constructed monitor (update read W+6 times with symbolic periods on a concrete store), bit width of every integer that carries a period, sweep of every function read (and its in-repo callees) for frozen function-local statics, single precision inside double computations, lossy copy constructors, presence- or argument-keyed member caches, reference members bound to constructor arguments, loop accumulators that are members, members derived in the constructor and not refreshed by setters, results returned by reference to a member buffer, members filled from an argument under a condition that ignores it, hidden non-virtual base members, self-bound reference members, reductions that accumulate in float; every path of update() establishes the has-data state the timeout predicate reads; symbolic per-path reading of the update/timeout recurrences (exact formulas), paired queue/sum rule, boundary-witness evaluation of the extracted timeout predicate, dataflow wiring of the rate into the check-up'
 EXPLANATION = ('RateMonitoring::initialize/update/timeout and the CheckupRate wrappers are read symbolically with all callees inlined; the window constant, the paired '
                'push/pop/sum update, the rate formula, the timeout predicate (on integer nanoseconds, boundary witnesses) and the wiring of the monitored rate into the '
                'check-up and of the timeout into STALE are decided on the extracted formulas.')
